@@ -485,6 +485,8 @@ func rC06Writers(w *World, r *Report) {
 			n := short(u.Fn)
 			if _, ok := table[n]; ok && u.Kind == "write" {
 				ru.Present("writer/"+name+"/"+n, w.IPos(u.Instr), table[n])
+			} else if u.Kind == "write" && isFreshZeroInit(u) {
+				ru.Present("writer/"+name+"/"+n, w.IPos(u.Instr), "the zero value written out in the literal that creates the record")
 			} else {
 				ru.Bad("writer/"+name+"/"+n, w.IPos(u.Instr), "unexpected "+u.Kind+" of "+name+": an option could be reported as called although it was not given")
 			}
